@@ -453,6 +453,10 @@ func genAggregation(g *genState, prop string) {
 				}
 			}
 		case 4:
+			if g.p.Cfg["loop"] == 1 && r.P(0.5) {
+				g.add("rerun", 0, 0, 0, 0, "")
+				break
+			}
 			g.add("restart", 0, 0, 0, 0, "")
 			if r.P(0.8) {
 				g.pushSet(g.curSet())
@@ -628,6 +632,9 @@ func genC14(g *genState) {
 	}
 	for i := 0; i < 2+r.Intn(6); i++ {
 		tickBurst()
+		if g.p.Cfg["loop"] == 1 && r.P(0.12) {
+			g.add("rerun", 0, 0, 0, 0, "")
+		}
 		if r.P(0.15) {
 			// a late signature or a re-observation in the middle of the schedule
 			m := g.pickMsg()
